@@ -2062,6 +2062,14 @@ class Interp:
         if isinstance(x, DT) and isinstance(tz, TZ):
             return x.with_(kind="utc" if tz.kind == "utc" else "zoned",
                            zone=None if tz.kind == "utc" else tz.key_)
+        if isinstance(x, DT) and (isinstance(tz, (list, tuple, int, float, bytes, dict)) or tz is None):
+            # not a tzinfo at all (a multi-valued TZID parameter arrives as a list): zoneinfo's
+            # dt.replace(tzinfo=...) refuses it, pytz's tz.localize does not exist on it
+            if self.provider == "pytz":
+                raise AbsRaise("AttributeError", f"'{type(tz).__name__}' object has no attribute 'localize'")
+            if tz is None:
+                return x.with_(kind="naive", zone=None)
+            raise AbsRaise("TypeError", f"tzinfo argument must be None or of a tzinfo subclass, not type '{type(tz).__name__}'")
         raise Unsupported(f"localize({x!r}, {tz!r})")
 
     def setattr(self, o, name, value):
